@@ -1640,6 +1640,12 @@ class RawAlgorithmsMixIn:
         if out is None:
             raise NotImplementedError('should implement that')
 
+        # When the reshape could return a view, ybar is the same view of out and
+        # nothing has to be done.  For non-contiguous x the reshape is a copy and
+        # its adjoint has to be accumulated explicitly.
+        if not numpy.may_share_memory(ybar_data, out):
+            out += numpy.reshape(ybar_data, x_data.shape)
+
         return numpy.reshape(out, x_data.shape)
 
     @classmethod
